@@ -27,7 +27,9 @@ def run_property(prop: str, model: Model, tier: str) -> Ctx:
         raise AnalysisError(f"no check registered for {prop}")
     ctx = Ctx(model, prop, tier)
     REGISTRY[prop](ctx)
-    ctx.check_minimums()
+    if not ctx.violations():
+        # a recognised violation is a verdict; only a silent run must prove it was not blind
+        ctx.check_minimums()
     return ctx
 
 
